@@ -959,6 +959,12 @@ def subscript(interp, base, idx, st, node):
             tpl = base.extra[1]
             return tpl.replace(term=T("getitem", base.term, idx.term), labels=labels | tpl.labels, loc=fresh_id())
         return V("unk", T("getitem", base.term, idx.term), labels=labels)
+    if base.kind in ("ext", "mod", "unk") and isinstance(base.term, Term) and base.term.op == "ext" and base.term.args and base.term.args[0] in ("numpy.c_", "numpy.r_") and idx.kind == "tuple" and idx.items is not None and all(x.kind == "arr" and x.shape is not None for x in idx.items):
+        # np.c_[a, b]: the blocks joined as columns (np.column_stack); np.r_[a, b]: joined along the first axis
+        from . import api_lib as _L
+
+        fn_ = "numpy.column_stack" if base.term.args[0] == "numpy.c_" else "numpy.concatenate"
+        return _L.call_external(interp, fn_, [interp.mk_tuple(list(idx.items))], {}, st, node)
     if base.kind == "ext" or base.kind == "obj":
         return V("unk", T("getitem", base.term, idx.term), labels=labels, orig=base.orig)
     if base.kind == "arr" and base.shape is not None and idx.kind == "diagidx" and len(base.shape) == 2:
